@@ -35,7 +35,7 @@ META = {
 }
 
 CLAUSES = ['capacity', 'in-flight-negative', 'in-flight-above-capacity', 'borrow-after-shutdown', 'leak-after-shutdown',
-           'never-quiescent-after-shutdown']
+           'never-quiescent-after-shutdown', 'deadlock']
 
 HC = dict(prop='C12', clauses=CLAUSES, proto=4, max_in_flight=4, orphaned_threshold=2, n_req=4, max_defunct=1, max_fail=1,
           shutdown=True, convict=True)
@@ -52,6 +52,8 @@ def e_configs(ctx):
         ('hc-tight', dict(HC, max_in_flight=3, n_req=4, max_defunct=0, max_fail=0), 8),
         ('v2-pool', dict(LEG), 7),
         ('v2-pool-convict', dict(LEG, convict=True, max_defunct=1), 6),
+        # thresholds 1/2: a connection with a request in flight is set aside (trashed) when the load drops
+        ('v2-trash', dict(LEG, min_reqs=1, max_reqs=2, max_in_flight=3, n_req=3, max_defunct=0, max_fail=0), 8),
     ]
     if ctx.thorough:
         q = [(n, dict(p, drain_orders=('resp', 'timeout'), task_window=2), d + 2) for n, p, d in q]
@@ -73,6 +75,10 @@ def s_configs(ctx):
         ('v2-grow-vs-shutdown', dict(leg, stage=[('req',)], threads=['worker', 'shutdown', 'reactor']), b),
         # v2: two connections, a borrow overlaps the return that trashes one of them and the shutdown
         ('v2-borrow-trash-shutdown', dict(leg, stage=[('req',), ('task', 0, 'ok'), ('req',)], threads=['client', 'reactor', 'shutdown']), b),
+        # v2 (thresholds 1/2): a set-aside connection's last request is answered while shutdown() walks over the trash
+        ('v2-trash-return-vs-shutdown', dict(leg, min_reqs=1, max_reqs=2, max_in_flight=3,
+                                             stage=[('req',), ('req',), ('task', 0, 'ok'), ('req',), ('resp', 0)],
+                                             threads=['reactor', 'shutdown']), b + 1),
     ]
 
 
@@ -82,12 +88,14 @@ def s_harness(params, prefix, part):
 
 
 def run(ctx):
-    for name, params, depth in e_configs(ctx):
+    from vt.connlib import before_fork
+    before_fork()          # freeze the imported driver out of the collector's reach: per-execution gc.collect stays cheap
+    for name, params, depth in ctx.rotate(e_configs(ctx)):
         explore.bfs(ctx, poollib.PoolHarness, params, max_depth=depth, label='c12-E-' + name,
                     max_states=200000 if ctx.thorough else 30000)
     explore.close_pool()
     e_states, e_trans = ctx.counters.get('states', 0), ctx.counters.get('executions', 0)
-    for name, params, bound in s_configs(ctx):
+    for name, params, bound in ctx.rotate(s_configs(ctx)):
         sched.explore(ctx, 'c12-S-' + name, s_harness, params, bound, max_executions=400000 if ctx.thorough else 20000)
     s_execs = ctx.counters.get('executions', 0) - e_trans
     ctx.count('states', s_execs)          # engine S is stateless: one execution = one explored path
